@@ -396,8 +396,20 @@ func pendingAnything() bool {
 
 // drain: deterministic sweep — every link in order picks everything it has queued and delivers
 // it, every returned delta is relayed to all other neighbours — until nothing is pending.
+// fnv is FNV-1a (32 bit) of a dump: the drain reports it per delivery, so that the model can follow
+// the order in which the implementation walked each delta (Go map order) where it matters.
+func fnv(s string) uint32 {
+	h := uint32(2166136261)
+	for i := 0; i < len(s); i++ {
+		h ^= uint32(s[i])
+		h *= 16777619
+	}
+	return h
+}
+
 func drain() string {
 	n := 0
+	var tags []string
 	for round := 0; round < 200 && pendingAnything(); round++ {
 		for a := 1; a <= len(nodes); a++ {
 			for b := 1; b <= len(nodes); b++ {
@@ -415,7 +427,7 @@ func drain() string {
 					}
 				}
 				for len(l.wire) > 0 {
-					doDeliver(a, b, false, upNeighbours(b, a))
+					tags = append(tags, strconv.FormatUint(uint64(fnv(doDeliver(a, b, false, upNeighbours(b, a)))), 16))
 					n++
 				}
 			}
@@ -425,7 +437,7 @@ func drain() string {
 	for i := range nodes {
 		ds[i] = dump(i + 1)
 	}
-	return fmt.Sprintf("n=%d %s", n, strings.Join(ds, " | "))
+	return fmt.Sprintf("n=%d t=%s %s", n, strings.Join(tags, "."), strings.Join(ds, " | "))
 }
 
 func publish(name, ch, payload string) string {
